@@ -136,6 +136,10 @@ let handle (args : string list) : string =
     (match l_unnamed_changed (parse_init init).st_fs (parse_lprog prog) (parse_init cur).st_fs with
      | None -> "ok"
      | Some p -> "bad " ^ hex_of_bytes p)
+  | ["errline"; k; p; d] :: [] ->
+    let kind = (match k with "write" -> CannotWrite | "overwrite" -> CannotOverwrite | "chmod" -> CannotClearExec | _ -> failwith "bad kind") in
+    let h = hex_of_bytes (error_line (kind, bytes_of_hex p) (bytes_of_hex d)) in
+    if h = "" then "-" else h
   | [["tmpfree"]; init; prog] -> if tmp_freeb (parse_init init).st_fs (parse_prog prog) then "1" else "0"
   | _ -> "ERR:bad request"
 let () = serve handle
